@@ -16,6 +16,7 @@ import (
 	"math/big"
 	"math/rand"
 	"os"
+	"time"
 
 	"verif/harness/internal/core"
 	"verif/harness/internal/gen"
@@ -511,13 +512,13 @@ var Spec = &gen.Spec{
 		selfBytes, selfN := selfDomain(c)
 		runs := []gen.RunCfg{
 			{Name: fmt.Sprintf("text->number: all strings of <= %d tokens, literal texts of <= %d characters, hand-chosen strings x radixes", maxLen, litLen),
-				Cfg: cfg(c, "text", maxLen, litLen), Opts: tlc.Opts{Files: map[string][]byte{"dom.ndjson": placeholder}}},
+				Cfg: cfg(c, "text", maxLen, litLen), Opts: tlc.Opts{Timeout: 2 * time.Hour, Files: map[string][]byte{"dom.ndjson": placeholder}}},
 			{Name: fmt.Sprintf("harness-chosen domain: %d cases (number->text on seeded doubles with arguments; text->number on random literals, ties, mutations)", n),
-				Cfg: cfg(c, "dom", maxLen, litLen), Opts: tlc.Opts{Files: map[string][]byte{"dom.ndjson": domBytes}}},
+				Cfg: cfg(c, "dom", maxLen, litLen), Opts: tlc.Opts{Timeout: 2 * time.Hour, Files: map[string][]byte{"dom.ndjson": domBytes}}},
 		}
 		if selfN > 0 {
 			runs = append(runs, gen.RunCfg{Name: fmt.Sprintf("self-check: 9.8.1 digits of %d doubles by two formulations (NumFmt!ShortDigits = NumText!ShortestDigits)", selfN),
-				Cfg: cfg(c, "self", maxLen, litLen), Opts: tlc.Opts{Files: map[string][]byte{"dom.ndjson": selfBytes}}})
+				Cfg: cfg(c, "self", maxLen, litLen), Opts: tlc.Opts{Timeout: 2 * time.Hour, Files: map[string][]byte{"dom.ndjson": selfBytes}}})
 		}
 		return runs
 	},
